@@ -9,6 +9,7 @@ unterminated quotes, short records.  After every fault: load the CID, read the d
 modes, ``validate`` it and run ``main()``.  Oracle: the run ends normally or with an exception that is
 an instance of InterfaceError or DataError; ``main()`` never answers 4."""
 import copy
+import re
 import os
 
 from sim import boot, core, lib, simfs, tabular
@@ -16,7 +17,7 @@ from sim.peers import odf, xlsx
 
 ID = "C10"
 LEVEL = "fault_enumeration"
-QUICK_RUNS = 6000
+QUICK_RUNS = 12000
 BATCH = 200
 SWEEP_BATCH = 400
 SWEEP_EXHAUSTIVE_NOTE = ("single-fault sweep: every cell (columns 0-7) of every row of the 5 base CIDs and every cell of the "
@@ -203,6 +204,70 @@ def sweep_slice(tier, start, count):
                "container": None, "cid_storage": "rows"}
 
 
+# ---- composed hostile values: fragments of the little languages a cell of that kind is written in ------------
+def _codec_names():
+    import encodings.aliases
+
+    return sorted(set(encodings.aliases.aliases.values()) | {"utf_8_sig", "idna", "punycode", "unicode_escape",
+                                                            "raw_unicode_escape", "undefined", "mbcs", "oem"})
+
+
+FRAGMENTS = {
+    "generic": ["a", "x", "1", "0", " ", "\t", "\n", "\r", "\\", "'", '"', ",", ";", ":", ".", "...", "\u2026", "-", "%", "#", "(", ")",
+                "[", "]", "{", "}", "*", "+", "?", "|", "^", "$", "=", "<", ">", "\x00", "\u00fc", "\u00b2", "\ufeff", "\u2028"],
+    "date": ["DD", "MM", "YYYY", "YY", "hh", "mm", "ss", ".", "-", ":", " ", "/", "%", "%d", "%Y", "T", "D", "Y"],
+    "expr": ["id", "count", "color", "amount", "name", " ", "<", ">", "<=", "==", "!=", "=", "(", ")", "[", "]", "1", "0", "2", ".", ",",
+             "\\\n", "\n", "#", "lambda", ":", "if", "else", "or", "and", "not", "in", "is", "'", '"', "+", "-", "*", "//", "%", "~",
+             "None", "True", "x", "_", "@", ";", "\t"],
+    "range": ["0", "1", "5", "9", "99", ":", "...", "\u2026", ",", "-", ".", " ", "x", "'a'", '"b"', "0x1f", "1e3", "+", "_"],
+    "regex": ["a", "b", "+", "*", "?", "(", ")", "[", "]", "{", "}", "|", "\\", "^", "$", "(?P<n>", "(?P=n)", "(?i)", "(?#", "{2,1}",
+              "{1,2}", "\\1", "\\d", "\\Z", "[^", "a-", "-a", "(?<=", "(?!", "."],
+    "choice": ["red", "green", ",", " ", "'", '"', "\u00e4", "1", "-", ",,", "\t", "#"],
+}
+
+
+def _fragment_class(base, target, row_index, column):
+    if target != "cid":
+        return "generic"
+    row = base["cid"][row_index]
+    kind = (row[0] or "").lower()
+    if kind == "d" and column == 2:
+        name = row[1]
+        if name == "encoding":
+            return "codec"
+        if name in ("header", "sheet", "allowed characters"):
+            return "range"
+        return "generic"
+    if kind == "f":
+        type_name = row[5] if len(row) > 5 else ""
+        if column == 4:
+            return "range"
+        if column == 6:
+            return {"DateTime": "date", "RegEx": "regex", "Pattern": "regex", "Choice": "choice", "Integer": "range",
+                    "Decimal": "range"}.get(type_name, "generic")
+        if column == 2:
+            return {"DateTime": "date", "Integer": "range", "Decimal": "range"}.get(type_name, "generic")
+        return "generic"
+    if kind == "c" and column == 3:
+        return "expr"
+    return "generic"
+
+
+def _composed_value(rng, base, target, row_index, column):
+    fragment_class = _fragment_class(base, target, row_index, column)
+    if fragment_class == "codec":
+        return rng.choice(_codec_names())
+    fragments = FRAGMENTS[fragment_class]
+    value = "".join(rng.choice(fragments) for _ in range(rng.randint(1, 5)))
+    if fragment_class == "range":
+        # lengths and limits that ask for gigabytes are not part of the pool (see ASSUMPTIONS): no number above 999999
+        value = re.sub(r"[0-9a-fA-Fx_]{7,}", lambda match: match.group()[:6], value)
+    if fragment_class == "expr" and rng.random() < 0.6:
+        # most rules of a check start with a field name
+        value = rng.choice(["id", "color", "amount"]) + " " + value
+    return value
+
+
 def generate(seed, tier):
     rng = core.stream(seed, "gen")
     swarm = core.stream(seed, "swarm")
@@ -217,9 +282,17 @@ def generate(seed, tier):
             target = fault_rng.choice(["cid", "cid", "data"])
             rows = base[target]
             row_index = fault_rng.randrange(len(rows))
-            scenario["cells"].append({"target": target, "row": row_index,
-                                      "column": fault_rng.randrange(8 if target == "cid" else len(rows[row_index])),
-                                      "value": fault_rng.choice(HOSTILE)})
+            column = fault_rng.randrange(8 if target == "cid" else len(rows[row_index]))
+            if fault_rng.random() < 0.5:
+                value = fault_rng.choice(HOSTILE)
+            else:
+                # not from the list: composed of fragments of the little language this kind of cell is written in
+                if target == "cid" and fault_rng.random() < 0.7:
+                    # prefer the cells that are written in a language: values of properties, lengths, rules, examples
+                    kind = (rows[row_index][0] or "").lower()
+                    column = fault_rng.choice({"d": [2], "f": [2, 4, 6, 6], "c": [3]}.get(kind, [column]))
+                value = _composed_value(fault_rng, base, target, row_index, column)
+            scenario["cells"].append({"target": target, "row": row_index, "column": column, "value": value})
     elif roll < 0.8:
         target = fault_rng.choice(["cid-file", "data-file", "data-file"])
         kinds = ["truncate", "bitflip"]
@@ -416,7 +489,11 @@ def execute(scenario):
                 judge("validate", *lib.call(validio.validate, cid, data_path))
                 if cid.data_format.format in ("delimited", "fixed"):
                     # the same rows offered to a validated Writer, one by one and as one batch
-                    writable = [row for row in data_rows if len(row) == len(cid.field_formats)]
+                    # header rows pass through a Writer unvalidated (what they may hold is the caller's business and
+                    # rowio documents an AssertionError for misfits): they are written as empty names here
+                    header_count = cid.data_format.header
+                    writable = [[""] * len(cid.field_formats)] * min(header_count, len(data_rows)) + [
+                        row for row in data_rows[header_count:] if len(row) == len(cid.field_formats)]
                     status, writer = lib.call(validio.Writer, cid, "out.txt")
                     judge("writer-open", status, writer)
                     if status == "ok":
